@@ -1,0 +1,122 @@
+//! Verification-only seams (compiled only with `--cfg bsv_verif`, never in a shipped build).
+//!
+//! The library names `rand_core::OsRng` and `getrandom::getrandom` directly, so a deterministic
+//! simulator has no way to own the entropy the randomised signer, `PrivateKey::from_random`,
+//! the random PBKDF2 salt and the `from_random` extended keys consume.  With the guard on, those
+//! five call sites import `SimOsRng` / `getrandom` from here instead.  Both read from a
+//! thread-local script installed by the harness and fall back to the real OS source when no
+//! script is installed, so behaviour without a harness is unchanged even with the guard on.
+
+use rand_core::{CryptoRng, RngCore};
+use std::cell::RefCell;
+use std::collections::VecDeque;
+
+pub struct EntropyState {
+    /// Bytes handed out first, in order.
+    pub script: VecDeque<u8>,
+    /// Once the script is exhausted bytes come from a splitmix64 stream seeded with this value.
+    pub tail_state: u64,
+    /// Every byte handed out, in order.
+    pub drawn: Vec<u8>,
+    /// Number of fill calls served.
+    pub calls: usize,
+}
+
+thread_local! {
+    static ENTROPY: RefCell<Option<EntropyState>> = RefCell::new(None);
+}
+
+/// Install an entropy script for the current thread. Replaces any previous one.
+pub fn install_entropy(script: &[u8], tail_seed: u64) {
+    ENTROPY.with(|e| {
+        *e.borrow_mut() = Some(EntropyState {
+            script: script.iter().cloned().collect(),
+            tail_state: tail_seed,
+            drawn: vec![],
+            calls: 0,
+        })
+    });
+}
+
+/// Remove the script, returning (bytes drawn, number of fill calls).
+pub fn uninstall_entropy() -> Option<(Vec<u8>, usize)> {
+    ENTROPY.with(|e| e.borrow_mut().take().map(|s| (s.drawn, s.calls)))
+}
+
+/// (bytes drawn so far, fill calls so far) without removing the script.
+pub fn entropy_drawn() -> Option<(usize, usize)> {
+    ENTROPY.with(|e| e.borrow().as_ref().map(|s| (s.drawn.len(), s.calls)))
+}
+
+fn splitmix64(state: &mut u64) -> u64 {
+    *state = state.wrapping_add(0x9E3779B97F4A7C15);
+    let mut z = *state;
+    z = (z ^ (z >> 30)).wrapping_mul(0xBF58476D1CE4E5B9);
+    z = (z ^ (z >> 27)).wrapping_mul(0x94D049BB133111EB);
+    z ^ (z >> 31)
+}
+
+/// Returns true if a script served the request.
+fn scripted_fill(dest: &mut [u8]) -> bool {
+    ENTROPY.with(|e| {
+        let mut guard = e.borrow_mut();
+        match guard.as_mut() {
+            None => false,
+            Some(s) => {
+                s.calls += 1;
+                for b in dest.iter_mut() {
+                    let v = match s.script.pop_front() {
+                        Some(v) => v,
+                        None => (splitmix64(&mut s.tail_state) & 0xff) as u8,
+                    };
+                    *b = v;
+                    s.drawn.push(v);
+                }
+                true
+            }
+        }
+    })
+}
+
+/// Drop-in for `rand_core::OsRng` at the library's entropy sites.
+#[derive(Clone, Copy, Debug, Default)]
+pub struct SimOsRng;
+
+impl CryptoRng for SimOsRng {}
+
+impl RngCore for SimOsRng {
+    fn next_u32(&mut self) -> u32 {
+        let mut b = [0u8; 4];
+        self.fill_bytes(&mut b);
+        u32::from_le_bytes(b)
+    }
+
+    fn next_u64(&mut self) -> u64 {
+        let mut b = [0u8; 8];
+        self.fill_bytes(&mut b);
+        u64::from_le_bytes(b)
+    }
+
+    fn fill_bytes(&mut self, dest: &mut [u8]) {
+        if !scripted_fill(dest) {
+            rand_core::OsRng.fill_bytes(dest)
+        }
+    }
+
+    fn try_fill_bytes(&mut self, dest: &mut [u8]) -> Result<(), rand_core::Error> {
+        if scripted_fill(dest) {
+            Ok(())
+        } else {
+            rand_core::OsRng.try_fill_bytes(dest)
+        }
+    }
+}
+
+/// Drop-in for `getrandom::getrandom`.
+pub fn getrandom(dest: &mut [u8]) -> Result<(), getrandom::Error> {
+    if scripted_fill(dest) {
+        Ok(())
+    } else {
+        getrandom::getrandom(dest)
+    }
+}
